@@ -78,6 +78,11 @@ def ref_metrics(pnls, fees, types, holds, starting_balance, equity):
         for k in ('max_drawdown', 'annual_return', 'sharpe_ratio', 'calmar_ratio', 'sortino_ratio', 'omega_ratio'):
             out[k] = nan
         return out
+    if min(E) <= 0:
+        # an account blown through zero (cross margin, large loss): daily returns on a non-positive equity are undefined (see
+        # ASSUMPTIONS); the equity-based metrics are then not compared (the samples themselves still are)
+        out['_nonpositive_equity'] = True
+        return out
     r = [E[i] / E[i - 1] - 1 for i in range(1, len(E))]
     peak, mdd = E[0], 0.0
     for e in E:
@@ -260,6 +265,8 @@ def session_case(spec):
         want['finishing_balance'] = fin['accounts']['assets']['USDT']
         vios += compare_metrics(m, want, tag=f'[session, {len(pnls)} trades]')
         flags.add('session-with-trades')
+        if want.get('_nonpositive_equity'):
+            flags.add('excluded:equity-metrics-of-an-account-below-zero')
     return vios, flags, r
 
 
